@@ -11,11 +11,13 @@ LEAN_MODULES = ["TapkeeVerif.Props.C06"]
 LEAN_EXES = ["model_c06"]
 REQUIRED_THEOREMS_FINAL = [
     "TapkeeVerif.C06.covarianceUpper_upper",
-    "TapkeeVerif.C06.dense_sees_cov_refuted",
+    "TapkeeVerif.C06.dense_sees_cov",
+    "TapkeeVerif.C06.dense_sees_cov_without_mirror_refuted",
     "TapkeeVerif.C06.randomized_sees_cov",
     "TapkeeVerif.C06.pca_optimal",
+    "TapkeeVerif.C06.pca_kpca_mds_agree",
 ]
-REQUIRED_THEOREMS = []
+REQUIRED_THEOREMS = REQUIRED_THEOREMS_FINAL
 
 
 def case_line(c):
